@@ -220,6 +220,8 @@ pub struct SimDisk {
     pub last_point: Option<CrashPoint>,
     pub point_trace: Vec<(u64, char, Role, u64)>,
     pub trace_points: bool,
+    /// keep durable images up to date (needed only when power-loss images are taken)
+    pub track_durable: bool,
 }
 
 #[inline]
@@ -526,6 +528,7 @@ pub fn install(root: &str, seed: u64) {
         last_point: None,
         point_trace: Vec::new(),
         trace_points: false,
+        track_durable: false,
     };
     // SAFETY: called once per child before any tracked I/O, from the simulation thread.
     unsafe {
@@ -830,7 +833,9 @@ unsafe fn do_fsync(fd: c_int, nr: c_long) -> c_int {
         set_errno(e);
         return -1;
     }
-    s.set_durable_from_current(&rel);
+    if s.track_durable {
+        s.set_durable_from_current(&rel);
+    }
     s.bump("sync/fsync");
     0
 }
@@ -865,6 +870,10 @@ pub unsafe extern "C" fn msync(addr: *mut c_void, len: size_t, flags: c_int) -> 
     if let Some((e, _)) = s.check_fault("msync", Role::of(&rel)) {
         set_errno(e);
         return -1;
+    }
+    if !s.track_durable {
+        s.bump("sync/msync");
+        return 0;
     }
     // D_f[range] := current (the mapping is the current content)
     let start = a - maddr;
@@ -901,11 +910,14 @@ unsafe fn do_ftruncate(fd: c_int, len: off_t) -> c_int {
     }
     let r = libc::syscall(libc::SYS_ftruncate, fd, len) as c_int;
     if r == 0 {
+        let track = s.track_durable;
         let fs = s.file_entry(&rel);
-        let mut d = (*fs.durable).clone();
-        d.resize(len as usize, 0);
-        fs.durable_hash = hash_bytes(&d);
-        fs.durable = Arc::new(d);
+        if track {
+            let mut d = (*fs.durable).clone();
+            d.resize(len as usize, 0);
+            fs.durable_hash = hash_bytes(&d);
+            fs.durable = Arc::new(d);
+        }
         fs.version += 1;
     }
     r
